@@ -123,7 +123,7 @@ def histories(depth, cfg=None):
     if cfg is not None:
         # variational particles must stay last / cannot be removed; with keep_unsynchronized the cached
         # coordinates are authoritative, so the particle set may not be edited between steps
-        if cfg.get("x") in ("var1", "var2", "megno") or cfg.get("o", {}).get("keep_unsynchronized"):
+        if cfg.get("x") in ("var1", "var2", "megno") or cfg.get("o", {}).get("keep_unsynchronized") or cfg.get("sys") == "SCOL":
             structural = False
     for d in range(depth):
         nxt = []
@@ -173,7 +173,8 @@ def apply_op(rebound, sim, cfg, op):
         raise ValueError(op)
 
 
-PRE = ("compensated", "tree", "coll-tree", "open", "periodic", "energy")
+PRE = ("compensated", "tree", "coll-tree", "open", "periodic", "energy", "col:direct:merge", "col:direct:hardsphere", "col:line:merge", "col:tree:merge",
+       "col:tree:hardsphere", "col:linetree:merge", "col:linetree:hardsphere", "col:line:hardsphere")
 
 
 def extra_setup(rebound, sim, cfg, pre):
@@ -217,6 +218,11 @@ def extra_setup(rebound, sim, cfg, pre):
         sim.boundary = "periodic"
     elif x == "energy":
         sim.track_energy_offset = 1
+    elif x.startswith("col:"):
+        _, mode, res = x.split(":")
+        sim.configure_box(40.)
+        sim.collision = mode
+        sim.collision_resolve = res
     else:
         raise ValueError(x)
 
@@ -225,6 +231,8 @@ def reattach_extra(sim, cfg):
     x = cfg.get("x")
     if x in ("coll-direct", "coll-line", "coll-tree"):
         sim.collision_resolve = "merge"
+    elif x and x.startswith("col:"):
+        sim.collision_resolve = x.split(":")[2]
 
 
 class SavePoint:
@@ -373,6 +381,10 @@ def configs(tier, avx):
             if x == "coll-tree" and integ == "trace":
                 continue
             cfgs.append({"integ": integ, "o": o, "sys": "S3", "tp": 0, "dtsign": 1, "x": x})
+    # physically colliding spheres: every collision search mode x resolver
+    for mode in ("direct", "line", "tree", "linetree"):
+        for res in ("merge", "hardsphere"):
+            cfgs.append({"integ": "leapfrog", "o": {}, "sys": "SCOL", "tp": 0, "dtsign": 1, "x": "col:%s:%s" % (mode, res)})
     return cfgs
 
 
